@@ -119,7 +119,7 @@ PROPS = {
         'needs_mir': True,
     },
     'C03': {
-        'rules': [rule('X1'), rule('X2'), rule('X3'), rule('X17'), rule('X20'), rule('X14', keep=['define-record', 'write-conditional:define']), rule('W6')],
+        'rules': [rule('X1'), rule('X2'), rule('X3'), rule('X17'), rule('X20'), rule('X14', keep=['define-record', 'write-conditional:define']), rule('W6'), rule('W5', keep=['get_origin'])],
         'explanation': 'Every emission site that copies source text records Range(offset, offset+len) of exactly that text under the '
                        'file being read (X1, 21 sites); only new/push/merge write the text and the map, push keys each segment by '
                        '[len before, len before + s.len()) and merge re-bases keys and origins (X3), so keys tile the output; keys '
@@ -152,7 +152,7 @@ PROPS = {
         'technique': 'sibling cross-check + must-precede (guard before effect) analysis on the event loop',
     },
     'C09': {
-        'rules': [rule('X8'), rule('P3')],
+        'rules': [rule('X8'), rule('P3'), rule('X9')],
         'explanation': 'Termination by ranking over the real call graph of the preprocessor: the recursive component '
                        '{preprocess_str, preprocess_inner, resolve_text_macro_usage} is found from the call graph; every edge '
                        'carries both depth counters unchanged or +1 (no reset, no drop), every simple cycle increments a counter '
